@@ -1474,12 +1474,14 @@ def rand_script(rng, nops, big=False):
 
     if npar == 0:
         add_paragraph()
+    n_over = [0]
     if big and not many_paras:          # every pattern of a long list is asked for once: the i-th of n matches
         for k, ps in enumerate(paras):
             for pat in (ps if len(ps) <= 40 else rng.sample(ps, 40)):
                 ops.append(["matches", k, instantiate(rng, pat, nalpha)])
-                nm = overlap_name(rng, pat, nalpha) if rng.random() < 0.5 else None
-                if nm is not None:      # ... and with the text around a '*' overlapping in the name
+                nm = overlap_name(rng, pat, nalpha) if n_over[0] < 8 else None
+                if nm is not None:      # ... and (up to 8 times) with the text around a '*' overlapping in the name
+                    n_over[0] += 1
                     ops.append(["matches", k, nm])
         nops += len(ops)
     held = None                         # list last handed to globs_to_re directly
